@@ -91,6 +91,16 @@ def shard_country(arg):
         t = g.iban(cc, rng, ("random", "letters", "digits", "min", "max")[k % 5] if k < 5 else "random")
         check_iban(rec, t, "gen")
         rec.case(f"iban-{cc}", t, t if k == 0 else None)
+        if k % 4 == 0:
+            # the same BBAN text under every other country it fits (same structure, different published positions),
+            # then this country again
+            from ._shared import sibling_ibans
+            sibs = sibling_ibans(cc, t[4:], limit=12)
+            for y, ty in sibs:
+                check_iban(rec, ty, "sibling")
+                rec.case("iban-sibling-text", (y, ty))
+            if sibs:
+                check_iban(rec, t, "after-sibling")
         # "every accepted IBAN": whatever else the library accepts among the congruent spellings of the check digits
         # (C02 says it should accept none) must decompose and re-assemble just as well
         d = int(t[2:4])
@@ -189,4 +199,4 @@ def run(ctx):
     bics = sorted({e["bic"] for e in banks if e.get("bic")})[::ctx.pick(3, 1)]
     chunk = max(1, len(bics) // 32)
     ctx.pmap(shard_bic, [(bics[i:i + chunk], ctx.seed) for i in range(0, len(bics), chunk)])
-    ctx.require_classes("iban-registry-derived", "bic-registry", "bic-gen-8", "bic-gen-11", *[f"iban-{cc}" for cc in o.countries()])
+    ctx.require_classes("iban-sibling-text", "iban-registry-derived", "bic-registry", "bic-gen-8", "bic-gen-11", *[f"iban-{cc}" for cc in o.countries()])
